@@ -152,7 +152,14 @@ def _bez(pts, w=None):
 
 
 S2 = math.sqrt(2) / 2
+def _elev(p0, p1):
+    return ([0.0] * 3 + [1.0] * 3, [p0, ((p0[0] + p1[0]) / 2, (p0[1] + p1[1]) / 2), p1], None)
+
+
 FIXED = [
+    ("elevated segment x segment (crossing)", _elev((0, 0), (2, 2)), _bez([(0, 2), (2, 0)]), "meet"),
+    ("elevated segment x far segment", _elev((0, 0), (2, 2)), _bez([(5, 5), (6, 7)]), "disjoint"),
+    ("elevated segment x elevated segment", _elev((0, 0), (2, 2)), _elev((0, 2), (2, 0)), "meet"),
     ("parabola x y=1/2 (two transversal crossings)", _bez([(0, 0), (1, 2), (2, 0)]), _bez([(-1, 0.5), (3, 0.5)]), "meet"),
     ("parabola x y=1 (tangent)", _bez([(0, 0), (1, 2), (2, 0)]), _bez([(-1, 1.0), (3, 1.0)]), "meet"),
     ("parabola x y=3/2 (disjoint, overlapping boxes)", _bez([(0, 0), (1, 2), (2, 0)]), _bez([(-1, 1.5), (3, 1.5)]), "disjoint"),
